@@ -176,7 +176,7 @@ fn judge_zero_divisor(st: &mut Stats, rng: &mut Rng) {
 
 pub fn run(ctx: &Ctx) -> Report {
     let pairs = 11u64 * 7; // deg u 0..10 x deg v 0..6
-    let reps = ctx.vol(1500, 50_000);
+    let reps = ctx.vol(8000, 400_000);
     // hook liveness: the polydiv step hook must fire (otherwise the "never spins" half is unobserved)
     let (o, steps) = guarded::<Rat, _>(100, || Polynomial::new(vec![Rat::int(1), Rat::int(2), Rat::int(3)]).polydiv(&Polynomial::new(vec![Rat::int(1), Rat::int(1)])));
     let hook_live = o.is_ok() && steps >= 2;
